@@ -201,6 +201,12 @@ class Host:
     # -- watcher management ---------------------------------------------------------------------
     def watch(self, spec):
         wid = len(self.wspecs)
+        if spec.get('dup') is not None and wid > 0:
+            # the very same callback registered a second time with identical options: both registrations count
+            target = spec['dup'] % wid
+            while self.wspecs[target].get('dup_of') is not None:
+                target = self.wspecs[target]['dup_of']
+            spec = dict(self.wspecs[target], dup_of=target)
         self.wspecs.append(spec)
         oid = self.objs[spec['o'] % len(self.objs)]
         params = []
@@ -222,7 +228,24 @@ class Host:
 
     # -- top-level program ---------------------------------------------------------------------------
     def run(self):
+        ks = self.objs.index('KS') if 'KS' in self.objs else None
+        late = []
         for spec in self.cfg['watchers']:
+            if ks is not None and spec['o'] % len(self.objs) == ks:
+                late.append(spec)       # registered once KS owns its Parameters (before that they are K's)
+            else:
+                self.watch(spec)
+        if 'KS' in self.objs:
+            # KS only inherits the Parameters of K: its first class-level assignments copy them (with K's watchers)
+            self.trace.append(('OP', -1, 'prelude'))
+            try:
+                for n in list(PN[:self.cfg['n_params']]) + (['e'] if self.cfg.get('event') else []):
+                    self.engine.inherit('KS', 'K', n)      # until then KS reads K's Parameter: value and watchers
+                    self.engine.set('KS', n, False if n == 'e' else None)
+            except Exception as e:      # noqa
+                self.trace.append(('EXC', type(e).__name__, str(e)[:120]))
+            self.trace.append(('VALS', tuple(self.engine.snapshot(o) for o in self.objs)))
+        for spec in late:
             self.watch(spec)
         for i, op in enumerate(self.case['ops']):
             self.trace.append(('OP', i, op['op']))
@@ -263,6 +286,14 @@ class Host:
                     seen.add(n)
                     items.append((n, self.vals.mk(v)))
             eng.update(o, items)
+        elif k == 'update_bad':
+            items, seen = [], set()
+            for p, v in op['items']:
+                n = PN[p % np_]
+                if n not in seen:
+                    seen.add(n)
+                    items.append((n, self.vals.mk(v)))
+            eng.update_bad(o, items, op['at'] % (len(items) + 1))
         elif k == 'trigger':
             names = []
             for p in op['ps']:
@@ -293,7 +324,7 @@ class ModelEngine:
         self.slot_objs = set()
 
     def build(self, cfg):
-        oids = [f"I{i}" for i in range(cfg['n_inst'])] + (['K'] if cfg.get('cls_obj') else [])
+        oids = [f"I{i}" for i in range(cfg['n_inst'])] + (['K'] if cfg.get('cls_obj') else []) + (['KS'] if cfg.get('cls_obj') and cfg.get('cls_sub') else [])
         for oid in oids:
             vals = {n: None for n in PN[:cfg['n_params']]}
             vals['e'] = False
@@ -326,9 +357,17 @@ class ModelEngine:
         self.host.on_exit(w)
 
     def watch(self, wid, oid, params, spec):
+        if spec.get('dup_of') is not None:
+            wid = spec['dup_of']
         w = MWatcher(wid, oid, params, spec.get('what', 'value'), spec['oc'], spec['q'], spec['prec'], spec['mode'], spec['script'])
         self.m.watch(w)
         return w
+
+    def inherit(self, oid, src, name):
+        self.m.inherit_watchers(oid, src, name)
+
+    def update_bad(self, oid, items, at):
+        self.m.update(oid, items, fail_at=at)
 
     def unwatch(self, w):
         self.m.unwatch(w)
@@ -364,6 +403,7 @@ class RealEngine:
         self.host = host
         self.ctx = {}
         self.problems = []
+        self.cbs = {}
 
     def build(self, cfg):
         import param
@@ -382,6 +422,9 @@ class RealEngine:
             ns2['e'] = param.Event()
             self.objs['K'] = type('E', (param.Parameterized,), ns2)
             oids.append('K')
+            if cfg.get('cls_sub'):
+                self.objs['KS'] = type('E2', (self.objs['K'],), {})
+                oids.append('KS')
         self.names = sorted(list(PN[:cfg['n_params']]) + ['e'])
         return oids
 
@@ -398,7 +441,15 @@ class RealEngine:
     def watch(self, wid, oid, params, spec):
         o = self.objs[oid]
         w = _RW()
-        w.wid, w.obj, w.script, w.spec = wid, oid, spec['script'], spec
+        w.wid, w.obj, w.script, w.spec = (spec['dup_of'] if spec.get('dup_of') is not None else wid), oid, spec['script'], spec
+        if spec.get('dup_of') is not None:
+            cb, kwmode = self.cbs[spec['dup_of']]
+            if kwmode:
+                w.handle = o.param.watch_values(cb, list(params), onlychanged=spec['oc'], queued=spec['q'], precedence=spec['prec'])
+            else:
+                w.handle = o.param.watch(cb, list(params), what=spec.get('what', 'value'), onlychanged=spec['oc'], queued=spec['q'],
+                                         precedence=spec['prec'])
+            return w
         r = self.host.vals.r
         is_cls = isinstance(o, type)
         what = spec.get('what', 'value')
@@ -407,6 +458,8 @@ class RealEngine:
             evs = []
             for e in events:
                 ok = (e.obj is o) if what == 'value' else True
+                if is_cls and what == 'value':
+                    ok = isinstance(e.obj, type) and issubclass(e.obj, o)     # a subclass that copied the Parameter
                 evs.append((e.name, e.what, r(e.old), r(e.new), e.type if ok else f"{e.type}!obj"))
             self.host.on_enter(w, evs)
             self.host.on_exit(w)
@@ -417,10 +470,25 @@ class RealEngine:
             self.host.on_exit(w)
 
         if spec['mode'] == 'kwargs' and what == 'value':
+            self.cbs[wid] = (cb_kwargs, True)
             w.handle = o.param.watch_values(cb_kwargs, list(params), onlychanged=spec['oc'], queued=spec['q'], precedence=spec['prec'])
         else:
+            self.cbs[wid] = (cb_args, False)
             w.handle = o.param.watch(cb_args, list(params), what=what, onlychanged=spec['oc'], queued=spec['q'], precedence=spec['prec'])
         return w
+
+    def inherit(self, oid, src, name):
+        pass        # the library copies the Parameter (and its watcher table) on the first class-level assignment
+
+    def update_bad(self, oid, items, at):
+        d = {}
+        for i, (k, v) in enumerate(items):
+            if i == at:
+                d['no_such_parameter'] = 1
+            d[k] = v
+        if at >= len(items):
+            d['no_such_parameter'] = 1
+        self.objs[oid].param.update(d)
 
     def unwatch(self, w):
         self.objs[w.obj].param.unwatch(w.handle)
@@ -480,6 +548,8 @@ def compare(model_trace, real_trace, prop_of_op, tolerated=frozenset(), known=No
         r_exc = [e for e in rseg if e[0] == 'EXC']
         if r_exc and not m_exc:
             return (f"{P}.exception", opi, f"operation {mseg[0][2]} raised {r_exc[0][1]}: {r_exc[0][2]}")
+        if m_exc and not r_exc:
+            return (f"{P}.exception", opi, f"operation {mseg[0][2]} was expected to be rejected but did not raise")
         mw = sorted(e[1] for e in m_enter)
         rw = sorted(e[1] for e in r_enter)
         if mw != rw:
@@ -577,7 +647,8 @@ class DispatchWorld:
         what = 'value'
         if cfg.get('slots') and rng.random() < 0.15:
             what = 'doc'
-        spec = {'o': rng.randrange(cfg['n_inst'] + (1 if cfg.get('cls_obj') else 0)), 'ps': ps, 'what': what,
+        spec = {'o': rng.randrange(cfg['n_inst'] + (1 if cfg.get('cls_obj') else 0) + (1 if cfg.get('cls_obj') and cfg.get('cls_sub') else 0)),
+                'ps': ps, 'what': what,
                 'oc': rng.random() < 0.6, 'q': rng.random() < cfg['p_queued'],
                 'prec': 0 if what != 'value' else rng.choice([0, 0, 1, 2, 3]),
                 'mode': 'kwargs' if (what == 'value' and rng.random() < 0.15) else 'args', 'script': []}
@@ -605,7 +676,8 @@ class DispatchWorld:
         cfg = {
             'n_inst': rng.choice([1, 1, 2]),
             'n_params': rng.choice([2, 3, 4]),
-            'cls_obj': rng.random() < 0.2,
+            'cls_obj': rng.random() < 0.25,
+            'cls_sub': rng.random() < 0.5,
             'domain': rng.choice(list(DOMAINS)),
             'p_queued': rng.choice([0.0, 0.15, 0.4]),
             'p_script': rng.choice([0.0, 0.3, 0.6]),
@@ -615,14 +687,16 @@ class DispatchWorld:
             'avoid': sorted(avoid),
         }
         cfg['watchers'] = [self.gen_watcher(rng, cfg) for _ in range(rng.randint(1, 6))]
+        if rng.random() < 0.2:
+            cfg['watchers'].append({**cfg['watchers'][0], 'dup': rng.randrange(len(cfg['watchers']))})
         n_ops = min(60 if big else 40, 2 + int(rng.expovariate(1 / (16.0 if big else 10.0))))
-        nobj = cfg['n_inst'] + (1 if cfg['cls_obj'] else 0)
+        nobj = cfg['n_inst'] + (1 if cfg['cls_obj'] else 0) + (1 if cfg['cls_obj'] and cfg['cls_sub'] else 0)
         ops = []
         depth = [0] * nobj
         trig_in_batch_ok = 'trigger_in_batch' not in avoid
         for _ in range(n_ops):
             o = rng.randrange(nobj)
-            table = [('set', 8), ('same', 3), ('update', 3), ('trigger', 2), ('slot', 1 if cfg['slots'] else 0),
+            table = [('set', 8), ('same', 3), ('update', 3), ('update_bad', 1 if cfg['ctx'] else 0), ('trigger', 2), ('slot', 1 if cfg['slots'] else 0),
                      ('event', 1 if cfg['event'] else 0), ('watch', 1), ('unwatch', 1)]
             if cfg['ctx']:
                 table += [('open', 3 if depth[o] < 4 else 0), ('close', 3 if depth[o] else 0)]
@@ -638,6 +712,9 @@ class DispatchWorld:
             elif k == 'update':
                 ops.append({'op': 'update', 'o': o, 'items': [[rng.randrange(cfg['n_params']), gen_value(rng, cfg['domain'])]
                                                              for _ in range(rng.randint(1, 3))]})
+            elif k == 'update_bad':
+                items = [[rng.randrange(cfg['n_params']), gen_value(rng, cfg['domain'])] for _ in range(rng.randint(1, 3))]
+                ops.append({'op': 'update_bad', 'o': o, 'items': items, 'at': rng.randint(0, 3)})
             elif k == 'trigger':
                 ps = [rng.randrange(cfg['n_params']) for _ in range(rng.randint(1, 2))]
                 if cfg['event'] and rng.random() < 0.3 and not depth[o]:
@@ -649,7 +726,10 @@ class DispatchWorld:
                 ops.append({'op': 'slot', 'o': rng.randrange(cfg['n_inst']), 'p': rng.randrange(cfg['n_params']),
                             'v': {'k': 'str', 'x': rng.choice(['a', 'b', ''])}})
             elif k == 'watch':
-                ops.append({'op': 'watch', 'w': self.gen_watcher(rng, cfg)})
+                w = self.gen_watcher(rng, cfg)
+                if rng.random() < 0.2:
+                    w['dup'] = rng.randint(0, 6)
+                ops.append({'op': 'watch', 'w': w})
             elif k == 'unwatch':
                 ops.append({'op': 'unwatch', 'w': rng.randint(0, 6)})
             elif k == 'open':
@@ -729,7 +809,7 @@ class DispatchWorld:
         for i, op in enumerate(case['ops']):
             if op['op'] == 'open':
                 depth += 1
-            if depth or op['op'] in ('trigger', 'update', 'close', 'event'):
+            if depth or op['op'] in ('trigger', 'update', 'update_bad', 'close', 'event'):
                 ctx_ops.add(i)
             if op['op'] == 'close' and depth:
                 depth -= 1
